@@ -18,6 +18,7 @@ pub mod c06;
 pub mod pci_model;
 pub mod regdev;
 pub mod c10;
+pub mod c12;
 pub mod replay;
 
 pub use engine::chooser::{choose, deviate};
